@@ -217,7 +217,7 @@ for _p in EXEC:
 # ZogPools engine: C07 (call histories), C08 (goroutines)
 # ---------------------------------------------------------------------------------------------
 POOL_SW = ['SwResetCtxMap', 'SwResetFmter', 'SwResetErrs', 'SwResetFlags', 'SwCoerceResetsParams', 'SwTestResetsMsg',
-           'SwCoerceResetsMsg', 'SwCollectOncePerIssue', 'SwPoolNewFresh', 'SwFrontEndIssueFresh']
+           'SwCoerceResetsMsg', 'SwCollectOncePerIssue', 'SwPoolNewFresh', 'SwFrontEndIssueFresh', 'SwResultOwnsStorage']
 POOL_KINDS = '{"plain", "ctxval", "probectx", "fail1", "fmtopt", "fail2", "coerce", "custom", "catch", "nested", "badjson"}'
 
 
